@@ -154,6 +154,66 @@ def _same_rows(a, b):
     return len(a) == len(b) and all(equal(np.asarray(x, dtype=object), np.asarray(y, dtype=object), deep=False) if (is_arr(x) or is_arr(y)) else is_zero(sp.sympify(x) - sp.sympify(y)) for x, y in zip(a, b))
 
 
+def site_tolerance(ctx):
+    """the site search on concrete numbers: four atoms on a line, the requested position a stated distance from one of them; closeness tests are evaluated with numpy's
+    semantics |a - b| <= atol + rtol·|b|.  The atom within the tolerance is taken, a position farther than the tolerance from every atom is refused (vacancy,
+    substitutional, dumbbell) / accepted (interstitial) -- in particular the tolerance is a *distance*: 0.05 is outside 0.01 although its square is not."""
+    R = sp.Rational
+    X = [R(0), R(2), R(4), R(6)]
+    n = 0
+    for gen in ('vacancy', 'substitutional', 'dumbbell', 'interstitial'):
+        fn = ctx.fn(PT, gen)
+        loc = PT + '::' + gen
+        for tag, delta, atol, near in (('4e-3 from an atom, default tolerance 1e-2', R(4, 1000), None, True), ('5e-2 from an atom, default tolerance 1e-2', R(5, 100), None, False),
+                                       ('1.3 from an atom, atol=1.5 given (the next atom is 0.7 away: two atoms within the tolerance)', R(13, 10), R(3, 2), 'two'),
+                                       ('0.9 from an atom (1.1 from the next), atol=1 given', R(9, 10), R(1), True), ('exactly on an atom', R(0), None, True)):
+            view = {'atype': arr([1, 2, 1, 2]), 'pos': np.array([[x_, R(1, 2), R(1, 3)] for x_ in X], dtype=object), 'charge': arr([R(1), R(2), R(3), R(4)])}
+
+            class SysC(SystemM):
+                def dvect(self, p0, p1):
+                    self.dv_calls.append((p0, p1))
+                    return np.atleast_2d(np.asarray(p1, dtype=object)) - np.asarray(p0, dtype=object)
+            system = SysC(box=BoxM(), pbc=np.array([False, False, False], dtype=object), atoms=AtomsM(view), symbols=('Al', 'Cu'))
+            pos = np.array([X[2] + delta, R(1, 2), R(1, 3)], dtype=object)
+            kw = dict(pos=pos)
+            if atol is not None:
+                kw['atol'] = atol
+            if gen == 'interstitial':
+                kw.update(atype=2)
+            if gen == 'substitutional':
+                kw.update(atype=2)          # the atom replaced (the third) is of type 1
+            if gen == 'dumbbell':
+                kw.update(db_vect=arr([R(1, 10), 0, 0]))
+            ev = SymEval(module_aliases(ctx.mod(PT)))
+
+            class UC(PyStub):
+                def set_in_units(self, v, u):
+                    return sp.nsimplify(v)
+            ev.globals = {'System': lambda **k: SysC(**k), 'deepcopy': _deep, 'uc': UC()}
+            try:
+                paths = ev.run_fn(fn, [system], dict(kw))
+                res, raised = _outcome(paths)
+                outcome = 'refused' if res is None else 'accepted'
+            except WouldRaise:
+                res, outcome = None, 'refused'
+            except Opaque as e:
+                raise AnalysisError('%s on concrete positions (%s): %s' % (gen, tag, e))
+            n += 1
+            if gen == 'interstitial':
+                want = 'refused' if near else 'accepted'       # an occupied site is refused
+                ok = outcome == want
+                what = 'an atom within the tolerance occupies the site: refused' if near else 'no atom within the tolerance: the new atom is accepted'
+            elif near is True:
+                ok = outcome == 'accepted' and res.natoms == {'vacancy': 3, 'substitutional': 4, 'dumbbell': 5}[gen] and all(not is_zero(sp.sympify(res.atoms.view['charge'][i]) - 3, deep=False) for i in range(min(3, res.natoms))) \
+                    if gen != 'substitutional' else (outcome == 'accepted' and res.natoms == 4 and is_zero(sp.sympify(res.atoms.view['charge'][3]) - 3, deep=False))
+                want, what = 'accepted', 'the atom within the tolerance (the third one) is the one taken'
+            else:
+                ok = outcome == 'refused'
+                want, what = 'refused', ('no atom within the tolerance: refused' if near is False else 'two atoms within the tolerance: refused')
+            ctx.ob('SITE', loc, 'position %s: %s' % (tag, what), bool(ok), 'the call is %s' % outcome, node=fn, key='tolerance %s %s' % (gen, tag[:30]))
+    ctx.floor('SITE/tolerance', n, 20)
+
+
 def generators(ctx):
     site = 1
     POS = symarray('r', (3,), real=True)       # requested position
@@ -320,4 +380,4 @@ def run(ctx):
                        'the untouched input are compared with the documented behaviour for selection by index, negative index, Cartesian and box-relative position. Not decided: the numerical distance test.')
     # the site lookup by position is the periodic-separation kernel: the candidate set it minimises over follows the three periodicity flags, one flag per direction
     from .c02 import minfold, DV
-    ctx.run_rules([generators, defaults, refusals, dispatch, lambda c: minfold(c, DV, 'dvect_c', True)])
+    ctx.run_rules([generators, site_tolerance, defaults, refusals, dispatch, lambda c: minfold(c, DV, "dvect_c", True)])
